@@ -12,8 +12,11 @@ import (
 
 // NextLevel is consulted at the start of every level draw (a run of Float32
 // calls that ends with the first value >= p). It returns the level wanted.
-// global is true for the package-level generator (internal skiplists).
-var NextLevel func(global bool) int
+// id is -1 for the package-level generator (internal skiplists), otherwise the
+// creation index of the generator since the last Reset (writers, segments).
+var NextLevel func(id int) int
+
+var nextID int
 
 type Source = rand.Source
 
@@ -24,11 +27,16 @@ type Rand struct {
 	remaining int
 	fresh     bool
 	global    bool
+	id        int
 }
 
-func New(s Source) *Rand { return &Rand{real: rand.New(s), fresh: true} }
+func New(s Source) *Rand {
+	r := &Rand{real: rand.New(s), fresh: true, id: nextID}
+	nextID++
+	return r
+}
 
-var global = &Rand{fresh: true, global: true}
+var global = &Rand{fresh: true, global: true, id: -1}
 
 func controlled() bool { return NextLevel != nil || vrt.X != nil }
 
@@ -43,7 +51,7 @@ func (r *Rand) Float32() float32 {
 		r.fresh = false
 		r.remaining = 0
 		if NextLevel != nil {
-			r.remaining = NextLevel(r.global)
+			r.remaining = NextLevel(r.id)
 		}
 	}
 	if r.remaining > 0 {
@@ -113,4 +121,4 @@ func Perm(n int) []int     { return global.Perm(n) }
 func Seed(seed int64)      { rand.Seed(seed) }
 
 // ResetGlobal puts the package-level generator back into its initial state (between executions).
-func ResetGlobal() { global.fresh = true; global.remaining = 0 }
+func ResetGlobal() { global.fresh = true; global.remaining = 0; nextID = 0 }
